@@ -196,8 +196,10 @@ func (fr *Frame) closureTerm(st *State, clo *Closure, args []Term) Term {
 	r.noDef++
 	r.noAssume++
 	r.probing++
-	h0 := r.havocN
-	defer func() { r.noDef--; r.noAssume--; r.probing-- }()
+	h0, a0, c0 := r.havocN, r.allocN, r.ctr
+	prevWrites, prevCtr0 := r.writes, r.probeCtr0
+	r.writes, r.probeCtr0 = map[string][]string{}, r.ctr
+	defer func() { r.noDef--; r.noAssume--; r.probing--; r.writes, r.probeCtr0 = prevWrites, prevCtr0 }()
 	scratch := st.clone()
 	var av []Val
 	for _, a := range args {
@@ -207,12 +209,15 @@ func (fr *Frame) closureTerm(st *State, clo *Closure, args []Term) Term {
 	if out == nil || len(res) != 1 {
 		unsupported("closure %s cannot be evaluated as a pure function", clo.Fn)
 	}
-	if r.havocN != h0 {
-		unsupported("closure %s is not pure (calls with unknown results / allocations)", clo.Fn)
+	if r.havocN-h0 != r.allocN-a0 {
+		unsupported("closure %s is not pure (calls with unknown results)", clo.Fn)
 	}
-	for k, t := range out.heaps {
-		if r.heapGet(st, k).S != t.S {
-			unsupported("closure %s writes to the heap", clo.Fn)
+	// writes are allowed only to cells allocated by the closure itself (address-taken locals)
+	for k, ws := range r.writes {
+		for _, w := range ws {
+			if !r.isFreshRefSince(w, c0) {
+				unsupported("closure %s writes to the heap (%s)", clo.Fn, k)
+			}
 		}
 	}
 	t, ok := res[0].(Term)
